@@ -25,7 +25,7 @@ TraceInit ==
 
 IsEvent(e) == l <= Len(Rec) /\ Rec[l].ev = e /\ l' = l + 1
 
-\* a violation is reported at the state in which it is recorded: nothing follows it
+\* (kept for readability of the actions below; a step that would break a clause is never taken)
 Live == viol = ""
 
 TReset == IsEvent("reset") /\ Live /\ Reset(Rec[l].mode)
@@ -48,9 +48,15 @@ TPanic == IsEvent("panic") /\ Live /\ Panic
 \* driver operations are logged for replay/diagnostics only
 TOp == IsEvent("op") /\ Live /\ UNCHANGED avars
 
-TraceNext == TReset \/ TActOne \/ TSendData \/ TQueue \/ TRawSend \/ TTamper \/ TReadBegin
+\* A step that breaks a clause of the property is not taken: the clause is printed and the trace is
+\* rejected at that record (so that TLC does not have to print a behaviour of 10^5 states).
+Report == viol' = "" \/ (PrintT(<<"CLAUSE", viol', l>>) /\ FALSE)
+
+TraceStep == TReset \/ TActOne \/ TSendData \/ TQueue \/ TRawSend \/ TTamper \/ TReadBegin
              \/ TReadEnd \/ TDelivered \/ TPeerConnected \/ TPeerDisconnected \/ TDisconnectSocket
              \/ TConnectErr \/ TWsa \/ TSocketDisconnected \/ TQuiesce \/ TPanic \/ TOp
+
+TraceNext == TraceStep /\ Report
 
 TraceSpec == TraceInit /\ [][TraceNext]_tvars
 
